@@ -75,8 +75,14 @@ def rule_concat(ctx, py):
                 okk = len(tup.elts) == 2 and pyfe.src(tup.elts[0]) == acc
                 ctx.check(okk, R, c, q, pyfe.src(c)[:80], "appended after the blocks of the previous species",
                           "block not appended at the end of the running array")
-            ctx.check(all(pysym.isrc(r.value, f, stop={c.targets[0].id for c in cats}).replace(" ", "").find(cats[0].targets[0].id) >= 0
-                          for r in rets), R, rets[-1], q, "returns the running array", "", "the assembled array is not what is returned")
+            acc0 = cats[0].targets[0].id
+            for r in rets:
+                t = pysym.isrc(r.value, f, stop={acc0}).replace(" ", "")
+                plain = t == acc0 or t.startswith("UnitArray(%s," % acc0) or t in ("np.array(%s)" % acc0, "np.array(%s,dtype=int)" % acc0,
+                                                                                   "np.asarray(%s)" % acc0)
+                ctx.check(plain, R, r, q, "return " + pyfe.src(r.value)[:70], "the running array as assembled",
+                          "the assembled array is re-arranged on return (`%s`): the blocks are no longer laid end to end in species "
+                          "order" % pyfe.src(r.value)[:60])
         elif apps and not cats:
             # list of per-species blocks, assembled once at the end: the assembling call decides the layout
             lst = apps[0].func.value.id
